@@ -9,6 +9,7 @@ cp $src/patch.diff $src/meta.json $dst/ 2>/dev/null
 cp $src/demo_test.go $dst/demo_test.go.txt 2>/dev/null
 demodir=$(python3 -c "import json;print(json.load(open('$src/meta.json')).get('demo_dir','.'))" 2>/dev/null || echo .)
 [ "$demodir" = "" ] && demodir=.
+demoflags=$(python3 -c "import json;print(json.load(open('$src/meta.json')).get('demo_flags',''))" 2>/dev/null || echo "")
 # the demo's package clause decides the directory when meta.json does not say
 if grep -q "^package jparse" $src/demo_test.go; then demodir=jparse; fi
 if grep -q "^package jlib" $src/demo_test.go; then demodir=jlib; fi
@@ -20,9 +21,9 @@ res_apply=fail; res_suite=fail; res_demo_mut=unknown; res_demo_orig=unknown
 if git -C $sc apply $dst/patch.diff; then res_apply=ok; fi
 if (cd $sc && go build ./... && go test -count=1 ./... >/tmp/sc_$name.suite 2>&1); then res_suite=pass; fi
 cp $src/demo_test.go $sc/$demodir/zz_demo_test.go
-if (cd $sc && timeout 120 go test -count=1 -timeout 60s ./$demodir >/tmp/sc_$name.demo1 2>&1); then res_demo_mut=pass; else res_demo_mut=fail; fi
+if (cd $sc && timeout 300 go test $demoflags -count=1 -timeout 120s ./$demodir >/tmp/sc_$name.demo1 2>&1); then res_demo_mut=pass; else res_demo_mut=fail; fi
 git -C $sc checkout -q -- .
-if (cd $sc && timeout 120 go test -count=1 -timeout 60s ./$demodir >/tmp/sc_$name.demo2 2>&1); then res_demo_orig=pass; else res_demo_orig=fail; fi
+if (cd $sc && timeout 300 go test $demoflags -count=1 -timeout 120s ./$demodir >/tmp/sc_$name.demo2 2>&1); then res_demo_orig=pass; else res_demo_orig=fail; fi
 git -C /repo worktree remove --force $sc
 echo "seed $name: apply=$res_apply suite=$res_suite demo(with change)=$res_demo_mut demo(unchanged)=$res_demo_orig"
 confirmed=false
